@@ -39,7 +39,7 @@ def floors(tier):
 # --------------------------------------------------------------------------
 # project generation
 
-def gen_project(rng):
+def gen_project(rng, force=None):
     feats = {
         'pkgconf': rng.random() < 0.5,
         'submodule': rng.random() < 0.6,
@@ -58,7 +58,10 @@ def gen_project(rng):
         # and possibly kept out of the source distribution
         'hdrinst': rng.random() < 0.6,
         'hdrnodist': rng.random() < 0.4,
+        # a search whose literal base directory does not exist (yet)
+        'missingbase': rng.choice([None, None, 'later', 'later/deep']),
     }
+    feats.update(force or {})
     files = {}
     for i in range(rng.randint(1, 3)):
         files['src/s%d.c' % i] = 'int s%d;\n' % i
@@ -100,6 +103,9 @@ def initial_bfg(feats, extra_lines=()):
     L.append("data = find_files('data/*.txt')")
     L.append("copies = copy_files(data)")
     L.append("default(prog, copies)")
+    if feats.get('missingbase'):
+        L.append("late = find_files('%s/*.txt')" % feats['missingbase'])
+        L.append("default(copy_files(late, directory='latecp'))")
     if feats['dirobj']:
         L.append("d = directory('data', include='*')")
     if feats.get('custfilter'):
@@ -113,7 +119,7 @@ def initial_bfg(feats, extra_lines=()):
     if feats['submodule']:
         L.append("submodule('sub')")
     if feats['options']:
-        L.append("if argv.flavor == 'x': pass")
+        L.append("default(copy_file('flavor-' + argv.flavor + '.out', 'data/y.dat'))")
     if feats['pkgconf']:
         L.append("lib = static_library('p', files=['src/main.c'])")
         L.append("pkg_config('p', version='1.0', libs=[lib]%s)" %
@@ -127,14 +133,80 @@ EDIT_KINDS = ['add-matching', 'add-nonmatching', 'remove-matching', 'rename-matc
               'touch-bfg', 'touch-source', 'edit-options', 'create-options', 'edit-sub',
               'drop-submodule', 'edit-toolchain', 'add-header', 'remove-header', 'add-data',
               'add-extra', 'noop', 'add-plugin', 'add-plugin-filtered-out', 'remove-plugin',
-              'add-empty-dir', 'fill-empty-dir', 'touch-input']
+              'add-empty-dir', 'fill-empty-dir', 'touch-input', 'create-missing-base',
+              'edit-options-default']
 # (plus 'drop-searches' and 'edit-late', which only occur as a directed tail of a history)
 
 
-def gen_history(rng, project, n):
+# edits after which the (lazy) regeneration finds nothing to do, and edits that change what is
+# found: every pair (skip-edit, structural edit) is a state the build directory can be in
+SKIP_EDITS = ['add-nonmatching', 'add-empty-dir', 'add-plugin-filtered-out', 'add-extra',
+              'touch-input', 'edit-bfg-comment']
+STRUCT_EDITS = ['remove-dir', 'remove-matching', 'rename-matching', 'add-dir-matching',
+                'add-matching', 'remove-header', 'add-header', 'add-data', 'remove-plugin',
+                'edit-sub', 'fill-empty-dir', 'edit-options-default', 'edit-toolchain',
+                'create-missing-base', 'drop-submodule']
+# what an edit kind needs from the project to be applicable / to matter
+NEEDS = {
+    'edit-sub': {'submodule': True}, 'drop-submodule': {'submodule': True},
+    'edit-options': {'options': True}, 'edit-options-default': {'options': True},
+    'edit-toolchain': {'toolchain': True},
+    'add-header': {'hdrdir': True, 'hdrinst': True}, 'remove-header': {'hdrdir': True, 'hdrinst': True},
+    'add-plugin': {'custfilter': True}, 'add-plugin-filtered-out': {'custfilter': True},
+    'remove-plugin': {'custfilter': True},
+    'add-empty-dir': {'deepglob': True}, 'fill-empty-dir': {'deepglob': True},
+    'remove-dir': {'deepglob': True}, 'add-dir-matching': {'deepglob': True},
+    'add-extra': {'extra': True},
+    'create-missing-base': {'missingbase': 'later'},
+}
+
+
+def deal(seed, tier, nhist, per):
+    """Edit kinds dealt from a shuffled deck: every kind occurs in some history of every run
+    (whatever the seed), instead of each history drawing independently."""
+    rng = core.rng_for(seed, 'c08deck', tier)
+    deck = []
+    while len(deck) < nhist * per:
+        d = list(EDIT_KINDS)
+        rng.shuffle(d)
+        deck += d
+    return [deck[i * per:(i + 1) * per] for i in range(nhist)]
+
+
+def plan_history(rng, index, dealt):
+    """-> (history before the directed insertions of gen_history, forced project features)"""
+    hist = list(dealt)
+    pair = [SKIP_EDITS[index % len(SKIP_EDITS)],
+            STRUCT_EDITS[(index // 2) % len(STRUCT_EDITS)]]
+    if pair[1] == 'fill-empty-dir':
+        pair[0] = 'add-empty-dir'
+    if pair[1] == 'remove-plugin':
+        pair.insert(0, 'add-plugin')
+    at = rng.randrange(len(hist) + 1)
+    hist[at:at] = pair
+    # an options.bfg can only be created where there is none, and edited where there is one
+    if 'create-options' in hist and any(k in hist for k in ('edit-options',
+                                                            'edit-options-default')):
+        hist.remove('create-options')
+    force = {}
+    for k in hist:
+        for f, v in NEEDS.get(k, {}).items():
+            if f == 'missingbase':
+                v = rng.choice(['later', 'later/deep'])
+            force.setdefault(f, v)
+    if 'create-options' in hist:
+        force['options'] = False
+    if 'missingbase' in force:
+        pass
+    return hist, force
+
+
+def gen_history(rng, project, n, hist=None):
     """A list of edits; each is materialised (ops on the tree) when applied,
     because validity depends on the current state."""
-    hist = [rng.choice(EDIT_KINDS) for _ in range(n)]
+    if hist is None:
+        hist = [rng.choice(EDIT_KINDS) for _ in range(n)]
+    hist = list(hist)
     feats = project['feats']
     # directed pairs: features that need a particular (sequence of) edit(s) get it
     # every history has one edit that leaves the generated files byte-identical (an input of
@@ -144,12 +216,12 @@ def gen_history(rng, project, n):
         # the files a header_directory(include=) finds are in the install rules
         hist.insert(rng.randrange(len(hist) + 1), 'add-header')
     if feats.get('custfilter'):
-        hist[rng.randrange(len(hist))] = 'add-plugin'
+        hist.insert(rng.randrange(len(hist) + 1), 'add-plugin')
         hist.insert(rng.randrange(len(hist) + 1), rng.choice(['remove-plugin', 'add-plugin',
                                                                'add-plugin-filtered-out']))
     if feats['deepglob'] and rng.random() < 0.6:
-        i = rng.randrange(len(hist))
-        hist[i:i + 1] = ['add-empty-dir'] + [rng.choice(EDIT_KINDS) for _ in range(rng.randint(0, 2))] \
+        i = rng.randrange(len(hist) + 1)
+        hist[i:i] = ['add-empty-dir'] + [rng.choice(EDIT_KINDS) for _ in range(rng.randint(0, 2))] \
             + ['fill-empty-dir']
     if rng.random() < 0.4:
         # the project stops searching altogether and gains a script that was not an input of
@@ -269,7 +341,7 @@ class Live:
         if self.state['has_sub']:
             L.append("submodule('sub')")
         if feats['options']:
-            L.append("if argv.flavor == 'x': pass")
+            L.append("default(copy_file('flavor-' + argv.flavor + '.out', 'data/y.dat'))")
         if feats['pkgconf']:
             L.append("lib = static_library('p', files=['src/main.c'])")
             L.append("pkg_config('p', version='1.0', libs=[lib])")
@@ -308,7 +380,7 @@ class Live:
                 'add-matching', 'add-nonmatching', 'add-extra', 'remove-matching',
                 'rename-matching', 'add-dir-matching', 'remove-dir', 'add-header',
                 'remove-header', 'add-data', 'add-plugin', 'add-plugin-filtered-out',
-                'remove-plugin', 'add-empty-dir', 'fill-empty-dir'):
+                'remove-plugin', 'add-empty-dir', 'fill-empty-dir', 'create-missing-base'):
             # nothing is searched any more: the file operations below would change nothing
             return None, '', False, False
         if kind == 'add-matching':
@@ -382,6 +454,16 @@ class Live:
             self.write('options.bfg', "argument('flavor', default='x')\n"
                                       "argument('extra%d', default='v')\n" % k)
             return kind, '', False, False
+        if kind == 'edit-options-default' and self.state['has_options'] and feats['options']:
+            self.write('options.bfg', "argument('flavor', default='x%d')\n" % k)
+            return kind, '', True, False
+        if kind == 'create-missing-base' and feats.get('missingbase') and \
+           not self.state.get('no_search'):
+            if os.path.isdir(os.path.join(self.src, feats['missingbase'])):
+                self.write('%s/l%d.txt' % (feats['missingbase'], k), 'late\n')
+                return 'add-to-created-base', '', True, False
+            self.write('%s/l%d.txt' % (feats['missingbase'], k), 'late\n')
+            return kind, '%s/l%d.txt' % (feats['missingbase'], k), True, False
         if kind == 'create-options' and not self.state['has_options']:
             self.write('options.bfg', "argument('late%d', default='q')\n" % k)
             self.state['has_options'] = True
@@ -452,12 +534,14 @@ class Live:
 
 
 def cases(tier, seed):
-    n = 12 if tier == 'quick' else 110
+    n = 16 if tier == 'quick' else 110
+    per = 5 if tier == 'quick' else 8
+    dealt = deal(seed, tier, n, per)
     for i in range(n):
         rng = core.rng_for(seed, 'c08', i)
-        project = gen_project(rng)
-        nedits = rng.randint(5, 8) if tier == 'quick' else rng.randint(6, 12)
-        hist = gen_history(rng, project, nedits)
+        planned, force = plan_history(rng, i, dealt[i])
+        project = gen_project(rng, force)
+        hist = gen_history(rng, project, len(planned), planned)
         for backend in ('make', 'ninja'):
             yield {'backend': backend, 'project': project, 'history': hist, 'index': i,
                    'seed': '%d/%d' % (seed, i)}
